@@ -1366,6 +1366,25 @@ def c20(tier, seed):
             P.tags["no_verus"] = "unions / raw byte views are outside Verus' subset"
             P.tags["prop"] = "C20"
             out.append(P)
+    # Debug on unions: the type name (or nothing) and the size_of::<Self>() bytes as one slice; Verus on the verbatim impl
+    # with the raw byte view and the slice's own Debug replaced by stubs (t_union.post_render), native replay on failure
+    dbg_sets = [("Debug(unsafe)", "default"), ("Debug(unsafe, name = false)", False), ("Debug(unsafe, name(Other))", "Other"), ("Debug(unsafe, name(false))", False),
+                ('Debug(unsafe, rename = "Other")', "Other"), ('Debug(unsafe, name = "")', False)]
+    for ui, urow in enumerate(UNIONS):
+        fields, size, generics = urow[:3]
+        urepr = urow[3] if len(urow) > 3 else None
+        for di, (meta, nm) in enumerate(dbg_sets):
+            if tier == "quick" and (ui + di) % 3 and not (size in (4, 8) and ui >= 9 and di < 2):
+                continue
+            fs = [Field(n, t) for n, t in fields]
+            inst = {"T0": "u32"} if len(generics) == 1 else {"T0": "u8", "T1": "u16"}
+            P = Program(c.pid(), "union", "U", [Variant(None, "named", fs)], [meta], generics=generics, inst=inst, focus={"Debug"}, repr_=urepr,
+                        note="union %s size=%d repr=%s traits=%s" % (fields, size, urepr, [meta]), union={"size": size}, debug={"name": nm},
+                        extra_derive=["Clone", "Copy"])
+            P.tags["mk"] = ("pub fn mk<Z9: Src>(s: &mut Z9) -> TI { let mut b = [0u8; %d]; let mut i = 0; while i < %d { b[i] = s.u8(); i += 1; } "
+                            "unsafe { core::mem::transmute_copy::<[u8; %d], TI>(&b) } }" % (size, size, size))
+            P.tags["prop"] = "C20"
+            out.append(P)
     # Default on unions (designated field), same contract as C08 but counted here
     for P in [p for p in _c08(tier, seed) if p.kind == "union"]:
         P.pid = c.pid()
@@ -1384,6 +1403,14 @@ def canaries_c20(programs):
         Q.sem["union"] = {"size": P.s("union", "size") - 1}       # oracle compares one byte too few
         Q.tags["mk"] = P.tags["mk"]
         Q.note = "CANARY (oracle compares one byte too few; size_ok must fail) of " + P.pid
+        out.append(Q)
+    dbg = [p for p in programs if p.kind == "union" and "Debug" in p.focus]
+    for P in [p for p in dbg if p.s("debug", "name") == "default"][:1] + [p for p in dbg if p.s("debug", "name") is False][:1]:
+        Q = P.clone(); Q.pid = P.pid + "_canary"; Q.canary_of = P.pid
+        Q.sem["debug"] = {"name": "Wrong" if P.s("debug", "name") == "default" else "default"}
+        Q.tags["mk"] = P.tags["mk"]
+        Q.tags["canary_engines"] = ["verus"]
+        Q.note = "CANARY (oracle expects another / a type name in the union's Debug output) of " + P.pid
         out.append(Q)
     return out
 
